@@ -13,7 +13,7 @@ from ..solver_tv import FAMILY, other_clause_failures, report_failures, validate
 from ..tlc import TLCError, require_ok, run_tlc
 from .. import scen
 
-FAMILY["C01"] = {"Certified"}
+FAMILY["C01"] = {"Certified", "StopEarly"}     # StopEarly: Solve returned as if eps were reached although no subdivided interval is below eps
 KN = {1: 2.0, 2: 2 ** 2.5 * math.sqrt(5), 3: 2 ** (8 / 3) * math.sqrt(6), 4: 2 ** 2.75 * math.sqrt(7), 5: 2 ** 2.8 * math.sqrt(8)}
 
 
@@ -74,7 +74,7 @@ def run(ctx):
             mode = "trap"
             Lmax = rng.uniform(20, 60)
             r_ = rng.uniform(2.2, 4.0)
-            eps = 1e-3
+            eps = rng.choice([1e-3, 5e-4, 3e-4])      # also accuracies below the evolvent resolution 2^-10 (one-dimensional: no grid)
             c1 = rng.uniform(0.05, 0.45)
             c2 = c1 + rng.uniform(0.4, 0.5)
             s_ = rng.uniform(1.0, 3.0)
